@@ -3,7 +3,7 @@ from props.m2common import *  # noqa: F401,F403
 from props.m2common import g, sx, rng_for, fl, close, same, is_err, env_points
 
 PID = "C11"
-KERNELS = ['K_scale', 'K_env_extend_until', 'K_squash_in', 'K_value_at', 'K_env_reads', 'K_sample_at', 'K_env_cut', 'K_env_split_at']   # translated from /repo on every run, tied to the model by coq/Gen/<name>_eq.v
+KERNELS = ['K_scale', 'K_env_extend_until', 'K_squash_in', 'K_value_at', 'K_env_reads', 'K_sample_at', 'K_env_cut', 'K_env_split_at', 'K_env_chain2']   # translated from /repo on every run, tied to the model by coq/Gen/<name>_eq.v
 RUNNER = "impl_m2.py"
 N = {"quick": 1500, "thorough": 50000}
 LEVEL_RULE = ("envelopes (plain and FlexTempo) as C08; one edit per case: sample_at(t, append), extend_until(d), cut_out(a, b), "
